@@ -302,17 +302,10 @@ class C05(core.Prop):
         long, conds2 = gg.render(long_shape, rec)
         return symx.cat('{', short, '}'), symx.cat('{', long, '}'), conds + conds2
 
-    DOUBLE_CLOSE = r"\)([.\-=#$]?\|\d+)?\)"
-
     def classify(self, shape, cinp, cobs, clauses):
-        # The reader's double-close defect (known finding of C04) also shows here, as '))' in the
-        # longhand and as '))' or ')|n)' in the shorthand.  Signature: the failing pair has that
-        # feature, and the longhand re-spelled without any '))' (last nested branch written as chain
-        # continuation; same holes and counts) is read to exactly the denoted graph by the real reader.
-        import re
         mults = {k: int(v) for k, v in cinp['mults'].items()}
         outer = nested_branch_mults(shape['chain'])
-        if outer and not re.search(self.DOUBLE_CLOSE, cinp['long']):
+        if outer:
             # known finding: a multiplied branch nested inside a multiplied branch.  Signature: the shape has
             # that feature and writing only the *outer* multiplied branch(es) out by hand (inner ones kept as
             # shorthand, same holes and counts) passes every clause.
@@ -324,25 +317,12 @@ class C05(core.Prop):
                                         dict(cinp, short=short, long=long, mults=rest))
             return None if bad else 'C05-nested-branch-multiplier'
         multi = self._multi_branch_in_mult(shape['chain'])
-        if multi and not re.search(self.DOUBLE_CLOSE, cinp['long']) and all(c.startswith('short_') for c in clauses):
+        if multi and all(c.startswith('short_') for c in clauses):
             # known finding: inside a multiplied branch an element carries two or more nested branches
             # (recipes are keyed by the anchor node, the second nested branch overwrites the first).
             # Signature: that feature, the longhand is read correctly and only shorthand clauses fail.
             return 'C05-two-nested-branches-in-multiplied-branch'
-        if not (re.search(self.DOUBLE_CLOSE, cinp['short']) or re.search(self.DOUBLE_CLOSE, cinp['long'])):
-            return None
-        long_shape = {'chain': expand(shape['chain'], mults), 'rings': shape['rings']}
-        alt = gg.no_double_close(long_shape)
-        text, _ = gg.render(alt, cinp['holes'])
-        if '))' in text:
-            return None
-        from cgsmiles.read_cgsmiles import read_cgsmiles
-        obs = core.guard(read_cgsmiles, '{' + text + '}')
-        if obs[0] != 'ok':
-            return None
-        nodes, edges = gg.denote(alt, cinp['holes'])
-        bad = core.eval_clauses(gg.graph_matches(obs[1], nodes, edges))
-        return None if bad else 'C05-double-branch-close'
+        return None
 
     def execute(self, M, shape, inp):
         return [core.guard(M.read_cgsmiles.read_cgsmiles, inp['short']),
